@@ -7,7 +7,7 @@
    Events
      reset
      srcpub x ok topic expect          the source published lineage x
-     hcall  stage n x tin fault        handler of `stage` invoked (its n-th call) with lineage x from topic tin
+     hcall  stage n x tin fault clean  handler of `stage` invoked (its n-th call) with lineage x from topic tin
      pcall  stage n x outs tout fault sample
                                        the stage's publisher is called with output lineages outs for topic tout;
                                        fault: none | before | after | panic ; sample: settlement of the consumed message
@@ -28,7 +28,8 @@ TSrc == /\ Is("srcpub")
         /\ IF Ev.ok THEN acc' = Add(Ev.topic, {Ev.x}) /\ exp' = exp \cup SeqSet(Ev.expect)
                     ELSE UNCHANGED <<acc, exp>>
         /\ UNCHANGED sinkset /\ Adv
-THCall == Is("hcall") /\ Ev.x \in In(Ev.tin) /\ UNCHANGED <<acc, exp, sinkset>> /\ Adv
+\* clean: the delivery is a copy of what the topic accepted -- it carries no trace of an earlier, failed attempt to handle it
+THCall == Is("hcall") /\ Ev.x \in In(Ev.tin) /\ (Has("clean") => Ev.clean) /\ UNCHANGED <<acc, exp, sinkset>> /\ Adv
 TPCall == /\ Is("pcall") /\ Ev.x \in In(Ev.tin)
           /\ Ev.sample = "none"                                       \* not given up before the output is accepted
           /\ acc' = IF Ev.fault \in {"none", "after"} THEN Add(Ev.tout, SeqSet(Ev.outs)) ELSE acc
